@@ -21,6 +21,13 @@ from . import gates
 from .qcircuit import QCircuit
 
 
+def _is_self_inverse(g: gates.QGate) -> bool:
+    """Return True if applying g twice is the identity"""
+    if isinstance(g, gates.QControlledGate):
+        return _is_self_inverse(g.gate)
+    return isinstance(g, (gates.I, gates.X, gates.Y, gates.Z, gates.H, gates.Swap))
+
+
 class QCircuitEnhanced(QCircuit):
     def __init__(self, num_qubits=0, name="qc", native=None):
         super().__init__(num_qubits, name, native)
@@ -61,16 +68,21 @@ class QCircuitEnhanced(QCircuit):
         i = 0
         len_g = len(self.gates)  # type: ignore
         while i < len_g:
-            if i < (len_g - 1) and self.gates[i] == self.gates[i + 1]:  # type: ignore
-                if isinstance(result[-1][0], gates.Barrier):
+            if (
+                i < (len_g - 1)
+                and self.gates[i] == self.gates[i + 1]  # type: ignore
+                and _is_self_inverse(self.gates[i][0])  # type: ignore
+            ):
+                if len(result) > 0 and isinstance(result[-1][0], gates.Barrier):
                     result.pop()
                 i += 2
             elif (
                 i < (len_g - 2)
                 and self.gates[i] == self.gates[i + 2]  # type: ignore
+                and _is_self_inverse(self.gates[i][0])  # type: ignore
                 and isinstance(self.gates[i + 1][0], gates.Barrier)  # type: ignore
             ):
-                if isinstance(result[-1][0], gates.Barrier):
+                if len(result) > 0 and isinstance(result[-1][0], gates.Barrier):
                     result.pop()
                 i += 3
             else:
